@@ -93,7 +93,9 @@ class Builder:
 
     def lower(self, tgt, spec=None, contract_only=False, keep_markers=False):
         """lowered C text of the real function with the unit's contract spliced in"""
-        d = astx.find_function(tgt.src, tgt.filt, tgt.name, tgt.nparams, tgt.sig, tgt.extra_flags, tgt.parent)
+        # a unit may hand over the declaration itself (e.g. the instantiated operator() of a continuation lambda that it
+        # located inside another function's AST); it must come from the same extraction (tgt.decl is an astx node)
+        d = getattr(tgt, 'decl', None) or astx.find_function(tgt.src, tgt.filt, tgt.name, tgt.nparams, tgt.sig, tgt.extra_flags, tgt.parent)
         lw = tgt.lowerer_cls(d, tgt.cname, self.profile, this_type=tgt.this)
         lw.source_files = [tgt.src] + list(getattr(tgt, 'more_sources', []))
         try:
